@@ -467,6 +467,8 @@ func runWorker(bin string, j job, scratch string, tag string, wallCap time.Durat
 	go func() { doneCh <- cmd.Wait() }()
 	deadline := time.Now().Add(wallCap)
 	lastSize, lastChange := int64(-1), time.Now()
+	cpuAtChange := 0.0
+	var cpuHist []float64
 	tick := time.NewTicker(time.Second)
 	defer tick.Stop()
 wait:
@@ -482,11 +484,24 @@ wait:
 			}
 			break wait
 		case <-tick.C:
-			// watchdog: the worker appends a record per run; no growth for 45 s = a run is stuck
+			// watchdog: the worker appends a record per run. A run is stuck when the file has not grown for
+			// 45 s of wall time AND the worker either burnt 30 s of CPU since (spinning, or a run far beyond
+			// any sensible size) or used next to none in the last 20 s (blocked for good). Judging by CPU time
+			// keeps a loaded machine (other checks, other builds) from turning slow runs into "stuck" ones;
+			// 300 s without growth is stuck whatever the load.
+			cpuNow := procCPU(cmd.Process.Pid)
+			cpuHist = append(cpuHist, cpuNow)
 			if st, err := os.Stat(j.Out); err == nil && st.Size() != lastSize {
-				lastSize, lastChange = st.Size(), time.Now()
+				lastSize, lastChange, cpuAtChange = st.Size(), time.Now(), cpuNow
 			}
-			stuck := time.Since(lastChange) > 45*time.Second
+			quiet := time.Since(lastChange)
+			stuck := quiet > 300*time.Second
+			if !stuck && quiet > 45*time.Second && cpuNow >= 0 {
+				recent := cpuNow - cpuHist[max(0, len(cpuHist)-21)]
+				stuck = cpuNow-cpuAtChange >= 30 || recent < 0.2
+			} else if cpuNow < 0 {
+				stuck = quiet > 45*time.Second
+			}
 			if stuck || time.Now().After(deadline) {
 				cmd.Process.Signal(syscall.SIGQUIT) // the Go runtime dumps all stacks
 				select {
@@ -527,6 +542,29 @@ wait:
 		}
 	}
 	return res
+}
+
+// procCPU returns the CPU seconds (user+system) a process has used, or -1.
+func procCPU(pid int) float64 {
+	data, err := os.ReadFile(fmt.Sprintf("/proc/%d/stat", pid))
+	if err != nil {
+		return -1
+	}
+	s := string(data)
+	i := strings.LastIndex(s, ")") // the command name may hold spaces
+	if i < 0 {
+		return -1
+	}
+	f := strings.Fields(s[i+1:])
+	if len(f) < 13 {
+		return -1
+	}
+	ut, err1 := strconv.ParseFloat(f[11], 64)
+	st, err2 := strconv.ParseFloat(f[12], 64)
+	if err1 != nil || err2 != nil {
+		return -1
+	}
+	return (ut + st) / 100
 }
 
 // ---------------------------------------------------------------- evidence
